@@ -250,6 +250,13 @@ def check_types(ctx):
   ctx.check("bad" not in cv.type_vars and set(cv.type_vars) >= {"reader", "writer"}, "TYPE", f"{conv.qualname}|reader type from (itype, input extension), writer type from (otype, output extension)", ctx.where(conv.module, conv.node),
             f"{cv.type_vars}", f"the type lookups do not pair --itype with the input path's extension and --otype with the output path's: {cv.type_vars.get('bad')}")
   cfgvar = cv.cfg_inline[0] if cv.cfg_inline else None
+  if cfgvar is None:
+    # the JSON object is loaded by a helper: it is the local that every read_config_from_json call of convert reads
+    second = {unparse(c_.args[1]) for c_ in own_nodes(conv.node) if isinstance(c_, ast.Call) and len(c_.args) == 2
+              and getattr(ix.resolve(conv.module, c_.func, func=conv), "qualname", None) == f"{TT}:read_config_from_json"}
+    if len(second) != 1:
+      raise AnalysisError("convert: the local that holds the JSON configuration was not identified")
+    cfgvar = second.pop()
   for what, fname, sub in (("reader", "to_model", "reader"), ("writer", "from_model", "writer")):
     st, ch = cv.chain(what)
     handled = {}
@@ -506,20 +513,20 @@ def check_config_precedence(ctx):
         changed = True
   sliced.sort(key=before.index)
   wrong = []
+  from ..rules.minieval import MiniEval, Node as _Node
+  from ..consteval import Raised as _Raised
   for inline_given in (False, True):
     for file_given in (False, True):
-      env = {f"{a}.config": "{...}" if inline_given else None, f"{a}.config_file": "cfg.json" if file_given else None}
-      env2 = dict(env)
-
-      class _Args:
-        pass
+      argsn = _Node("Args", "args", (), config="{...}" if inline_given else None, config_file="cfg.json" if file_given else None)
+      me = MiniEval(ix, opaque_calls={"json.loads": lambda: _copy.deepcopy(INLINE), "json.load": lambda: _copy.deepcopy(FILE), "open": "<file>"})
+      env2 = {a: argsn}
       try:
-        # args.<x> reads: ConstEval sees `args.config` through the env key 'args.config' only in the calling variant; bind a namespace object instead
-        ns = {"config": env[f"{a}.config"], "config_file": env[f"{a}.config_file"]}
-        env2 = {a: type("Args", (), ns)()}
-        run(sliced, env2)
-      except _Undecided as ex:
-        raise AnalysisError(f"convert: the configuration-loading statements leave the evaluable subset ({ex})")
+        me.block(sliced, env2, f, 0)
+      except NotConst as ex:
+        raise AnalysisError(f"convert: the configuration-loading statements leave the interpreted subset ({ex})")
+      except _Raised:
+        wrong.append(f"--config {'given' if inline_given else 'absent'}, --config_file {'given' if file_given else 'absent'}: raises")
+        continue
       got = env2.get(var.id)
       want = FILE if file_given else (INLINE if inline_given else None)
       if got != want:
